@@ -19,6 +19,14 @@ package ackhandler
 //   T  whenever an ack-eliciting Initial/Handshake packet, or (after DropPackets(Handshake) =
 //      handshake confirmation) an ack-eliciting application-data packet is outstanding and
 //      the handler is not amplification-blocked, GetLossDetectionTimeout() is non-zero,
+//   Q  "reported exactly once" on a finite history: the operation `settle` closes the history the
+//      way a live connection does -- the clock advances by one hour, one more ordinary
+//      ack-eliciting packet is sent in every packet-number space that still holds unreported
+//      frames and the peer acknowledges exactly that packet, then every loss-detection deadline
+//      is served (OnLossDetectionTimeout at the deadline; a PTO probe is sent and acknowledged)
+//      until no deadline is armed. In that quiescent state (nothing scheduled, every ACK
+//      delivered) no frame of a packet sent an hour before an acknowledged packet of its space
+//      may still be unreported: nothing is left that would ever report it,
 //   no panic.
 //
 // Path migration (MigratedPath, the call connection.go makes when the client switches to a
@@ -115,6 +123,7 @@ type c06Cfg struct {
 	drop0       bool
 	retry       bool
 	migrate     bool // MigratedPath (only after handshake confirmation, as in connection.go)
+	noSettle    bool // do not offer the closing operation `settle` (clause Q)
 	recvBytes   []int
 	recvPkt     bool
 	maxSends    int
@@ -385,7 +394,34 @@ func (in *c06Inst) Ops() []explore.Op {
 			ops = append(ops, explore.Op{N: "recvPkt", A: c06H})
 		}
 	}
+	// close the history (clause Q); offered wherever a frame is still unreported and the
+	// connection may send
+	if !c.noSettle && mode != SendNone && in.anyPending() {
+		ops = append(ops, explore.Op{N: "settle"})
+	}
 	return ops
+}
+
+// pending: some frame of the packet has not been reported yet and its space was not discarded.
+func (p *c06Pkt) pending() bool {
+	if p.state != c06Out {
+		return false
+	}
+	for _, fr := range p.frames {
+		if fr.acked+fr.lost == 0 {
+			return true
+		}
+	}
+	return false
+}
+
+func (in *c06Inst) anyPending() bool {
+	for _, p := range in.pkts {
+		if p.pending() {
+			return true
+		}
+	}
+	return false
 }
 
 func c06HighBit(m int) int {
@@ -495,68 +531,77 @@ func c06Size(l, kind int, pn protocol.PacketNumber) protocol.ByteCount {
 	return protocol.ByteCount(300 + 100*l + 10*int(pn%10) + kind)
 }
 
+// send hands one packet of the given kind to the handler the way packet_packer.go / connection.go
+// do (PeekPacketNumber, PopPacketNumber, SentPacket) and enters it into the ledger.
+func (in *c06Inst) send(l, kind int) (p *c06Pkt, gap int, peekok bool, _ *explore.Fail) {
+	lvl := c06Level(l)
+	s := c06Space(l)
+	peek, _ := in.api.PeekPacketNumber(lvl)
+	pn := in.api.PopPacketNumber(lvl)
+	size := c06Size(l, kind, pn)
+	p = &c06Pkt{level: l, kind: kind, pn: pn, size: size}
+	var frames []Frame
+	var sframes []StreamFrame
+	largestAcked := protocol.InvalidPacketNumber
+	switch kind {
+	case c06Elic, c06MTU:
+		fr, hd := in.mkFrame()
+		frames = []Frame{{Frame: &wire.MaxDataFrame{MaximumData: protocol.ByteCount(fr.id)}, Handler: hd}}
+		p.frames = []*c06Frame{fr}
+	case c06AckOnly:
+		largestAcked = 1
+	case c06Multi:
+		largestAcked = 1
+		fr1, hd1 := in.mkFrame()
+		fr2, hd2 := in.mkFrame()
+		sframes = []StreamFrame{{Frame: &wire.StreamFrame{StreamID: 4, Offset: protocol.ByteCount(fr1.id), Data: []byte{1}}, Handler: hd1}}
+		frames = []Frame{{Frame: &wire.MaxDataFrame{MaximumData: protocol.ByteCount(fr2.id)}, Handler: hd2}}
+		p.frames = []*c06Frame{fr1, fr2}
+	case c06Path:
+		fr, hd := in.mkFrame()
+		frames = []Frame{{Frame: &wire.PathChallengeFrame{Data: [8]byte{byte(fr.id)}}, Handler: hd}}
+		p.frames = []*c06Frame{fr}
+	default:
+		explore.Must(false, "bad kind %d", kind)
+	}
+	m := &in.sp[s]
+	prevLargest := m.largest()
+	if prevLargest != protocol.InvalidPacketNumber && pn <= prevLargest {
+		return nil, 0, false, explore.Failf("pn-reused:"+c06SpaceName(s), "PopPacketNumber(%s) returned %d after %d was already sent", lvl, pn, prevLargest)
+	}
+	in.api.SentPacket(in.now, pn, largestAcked, sframes, frames, lvl, protocol.ECNNon, size, kind == c06MTU, kind == c06Path)
+	m.sent = append(m.sent, pn)
+	in.pkts = append(in.pkts, p)
+	in.mSent += size
+	in.nSends++
+	switch l {
+	case c06H:
+		in.sentH = true
+	case c06Z:
+		in.sent0RTT++
+	case c06A:
+		in.sent1RTT = true
+	}
+	if prevLargest != protocol.InvalidPacketNumber {
+		gap = int(pn - prevLargest - 1)
+	}
+	return p, gap, peek == pn, nil
+}
+
 func (in *c06Inst) Apply(op explore.Op) *explore.Fail {
 	in.outcome = ""
 	if in.prefixFail != nil {
 		return in.prefixFail
 	}
 	var opErr error
+	var settled *c06Settle
 	switch op.N {
 	case "send":
-		l, kind := op.A, op.B
-		lvl := c06Level(l)
-		s := c06Space(l)
-		peek, _ := in.api.PeekPacketNumber(lvl)
-		pn := in.api.PopPacketNumber(lvl)
-		size := c06Size(l, kind, pn)
-		p := &c06Pkt{level: l, kind: kind, pn: pn, size: size}
-		var frames []Frame
-		var sframes []StreamFrame
-		largestAcked := protocol.InvalidPacketNumber
-		switch kind {
-		case c06Elic, c06MTU:
-			fr, hd := in.mkFrame()
-			frames = []Frame{{Frame: &wire.MaxDataFrame{MaximumData: protocol.ByteCount(fr.id)}, Handler: hd}}
-			p.frames = []*c06Frame{fr}
-		case c06AckOnly:
-			largestAcked = 1
-		case c06Multi:
-			largestAcked = 1
-			fr1, hd1 := in.mkFrame()
-			fr2, hd2 := in.mkFrame()
-			sframes = []StreamFrame{{Frame: &wire.StreamFrame{StreamID: 4, Offset: protocol.ByteCount(fr1.id), Data: []byte{1}}, Handler: hd1}}
-			frames = []Frame{{Frame: &wire.MaxDataFrame{MaximumData: protocol.ByteCount(fr2.id)}, Handler: hd2}}
-			p.frames = []*c06Frame{fr1, fr2}
-		case c06Path:
-			fr, hd := in.mkFrame()
-			frames = []Frame{{Frame: &wire.PathChallengeFrame{Data: [8]byte{byte(fr.id)}}, Handler: hd}}
-			p.frames = []*c06Frame{fr}
-		default:
-			explore.Must(false, "bad kind %d", kind)
+		p, gap, peekok, f := in.send(op.A, op.B)
+		if f != nil {
+			return f
 		}
-		m := &in.sp[s]
-		prevLargest := m.largest()
-		if prevLargest != protocol.InvalidPacketNumber && pn <= prevLargest {
-			return explore.Failf("pn-reused:"+c06SpaceName(s), "PopPacketNumber(%s) returned %d after %d was already sent", lvl, pn, prevLargest)
-		}
-		in.api.SentPacket(in.now, pn, largestAcked, sframes, frames, lvl, protocol.ECNNon, size, kind == c06MTU, kind == c06Path)
-		m.sent = append(m.sent, pn)
-		in.pkts = append(in.pkts, p)
-		in.mSent += size
-		in.nSends++
-		switch l {
-		case c06H:
-			in.sentH = true
-		case c06Z:
-			in.sent0RTT++
-		case c06A:
-			in.sent1RTT = true
-		}
-		gap := 0
-		if prevLargest != protocol.InvalidPacketNumber {
-			gap = int(pn - prevLargest - 1)
-		}
-		in.outcome = fmt.Sprintf("send %s/%s gap=%d peekok=%v", c06LevelName(l), c06KindName(kind), gap, peek == pn)
+		in.outcome = fmt.Sprintf("send %s/%s gap=%d peekok=%v", c06LevelName(p.level), c06KindName(p.kind), gap, peekok)
 	case "ack":
 		s := op.A
 		lvl := c06SpaceLevel(s)
@@ -665,6 +710,17 @@ func (in *c06Inst) Apply(op explore.Op) *explore.Fail {
 			in.mValidated = true
 		}
 		in.outcome = "recvPkt"
+	case "settle":
+		st, f, err := in.settle()
+		if f != nil {
+			return f
+		}
+		settled, opErr = st, err
+		if err != nil {
+			in.outcome = "settle -> error " + c06ErrClass(err)
+		} else {
+			in.outcome = "settle " + st.String()
+		}
 	default:
 		explore.Must(false, "unknown op %v", op)
 	}
@@ -677,7 +733,147 @@ func (in *c06Inst) Apply(op explore.Op) *explore.Fail {
 		in.dead = true
 		return nil
 	}
+	if settled != nil {
+		// the history is closed: nothing is explored behind it
+		in.dead = true
+		if f := in.checkSettled(settled); f != nil {
+			return f
+		}
+	}
 	return in.checkAccounts(op)
+}
+
+// c06SettleRounds bounds the number of loss-detection deadlines served by one settle.
+const c06SettleRounds = 6
+
+// c06Settle records what the closing sequence of one settle did.
+type c06Settle struct {
+	nBefore   int                      // ledger packets that existed before the closing sequence
+	closed    [3]protocol.PacketNumber // per space: largest number sent and acknowledged by the closing sequence
+	rounds    int                      // loss-detection deadlines served
+	quiescent bool                     // no loss-detection deadline is armed at the end
+}
+
+func (st *c06Settle) String() string {
+	var sb strings.Builder
+	sb.WriteString("closed=")
+	for s, pn := range st.closed {
+		if pn != protocol.InvalidPacketNumber {
+			sb.WriteString(c06SpaceName(s)[:1])
+		}
+	}
+	fmt.Fprintf(&sb, " deadlines=%d quiescent=%v", min(st.rounds, 3), st.quiescent)
+	return sb.String()
+}
+
+// settle closes the history the way a connection that stays alive does: an hour passes; in
+// every packet-number space that still holds an unreported frame (and in which the connection
+// may send data) one more ordinary ack-eliciting packet is sent and, 50 ms later, acknowledged
+// on its own; then every loss-detection deadline the handler arms is served at its time
+// (OnLossDetectionTimeout; in a PTO send mode QueueProbePacket + one probe packet, acknowledged
+// 50 ms later) until no deadline is armed or c06SettleRounds deadlines were served.
+// An error return of the handler closes the connection (no verdict).
+func (in *c06Inst) settle() (*c06Settle, *explore.Fail, error) {
+	st := &c06Settle{nBefore: len(in.pkts)}
+	for s := range st.closed {
+		st.closed[s] = protocol.InvalidPacketNumber
+	}
+	in.now = in.now.Add(time.Hour)
+	var fail *explore.Fail
+	exchange := func(l int) error {
+		p, _, _, f := in.send(l, c06Elic)
+		in.fixGen()
+		if f != nil {
+			fail = f
+			return nil
+		}
+		in.now = in.now.Add(50 * time.Millisecond)
+		s := c06Space(l)
+		_, err := in.api.ReceivedAck(&wire.AckFrame{AckRanges: []wire.AckRange{{Smallest: p.pn, Largest: p.pn}}}, c06SpaceLevel(s), in.now)
+		in.received = true
+		in.nAcks++
+		if err == nil {
+			st.closed[s] = p.pn
+		}
+		return err
+	}
+	for {
+		for s := 0; s < 3; s++ {
+			if st.closed[s] != protocol.InvalidPacketNumber {
+				continue
+			}
+			need := false
+			for _, p := range in.pkts[:st.nBefore] {
+				need = need || (c06Space(p.level) == s && p.pending())
+			}
+			l := s
+			if s == 2 {
+				l = c06A
+			}
+			if !need || !in.canSend(l) {
+				continue
+			}
+			if m := in.api.SendMode(in.now); m == SendNone || m == SendAck {
+				continue // amplification- or congestion-blocked: no data packet may be sent now
+			}
+			if err := exchange(l); err != nil || fail != nil {
+				return st, fail, err
+			}
+		}
+		t := in.api.GetLossDetectionTimeout()
+		if t.IsZero() {
+			st.quiescent = true
+			return st, nil, nil
+		}
+		if st.rounds == c06SettleRounds {
+			return st, nil, nil
+		}
+		st.rounds++
+		if in.now.Before(t) {
+			in.now = t
+		}
+		in.nTimeouts++
+		err := in.api.OnLossDetectionTimeout(in.now)
+		in.fixGen()
+		if err != nil {
+			return st, nil, err
+		}
+		l := -1
+		switch in.api.SendMode(in.now) {
+		case SendPTOInitial:
+			l = c06I
+		case SendPTOHandshake:
+			l = c06H
+		case SendPTOAppData:
+			l = c06A
+		}
+		if l >= 0 && in.canSend(l) {
+			in.api.QueueProbePacket(c06Level(l))
+			if err := exchange(l); err != nil || fail != nil {
+				return st, fail, err
+			}
+		}
+	}
+}
+
+// checkSettled evaluates clause Q after a settle (the ledger states are up to date).
+func (in *c06Inst) checkSettled(st *c06Settle) *explore.Fail {
+	n := 0
+	for _, p := range in.pkts[:st.nBefore] {
+		s := c06Space(p.level)
+		if p.state != c06Out || !p.ackEliciting() || st.closed[s] == protocol.InvalidPacketNumber || p.pn > st.closed[s] {
+			continue
+		}
+		n++
+		if st.quiescent {
+			where := c06LevelName(p.level) + "/" + c06KindName(p.kind)
+			return explore.Failf("frame-unreported-at-quiescence:"+where,
+				"packet %d (%s, %d bytes) still has a frame that was reported neither acked nor lost although the history is closed: it was sent more than an hour before packet %d of its space, which the peer acknowledged; every loss-detection deadline was served (%d) and none is armed any more, so nothing is left that would report it (bytesInFlight %d; %s)",
+				p.pn, where, p.size, st.closed[s], st.rounds, in.h.bytesInFlight, in.ledgerString())
+		}
+	}
+	in.outcome += fmt.Sprintf(" unreported=%d", min(n, 2))
+	return nil
 }
 
 func c06ErrClass(err error) string {
